@@ -62,6 +62,9 @@ func runDecode(cfg *Cfg) {
 		deepAndBig(out, t, r, cfg.Tier)
 		repeatedKeyPass(out, t, r, en, modelOK)
 		largeUnknownPass(out, t, r, en)
+		adjacencyPass(out, t, r, en, modelOK)
+		nilJunkMergePass(out, t, r, en, modelOK)
+		bigBlobPass(out, t, r, en)
 		for c := 0; c < perTarget; c++ {
 			g := &vval.StreamGen{R: r, S: t.S, G: &vval.GenOpts{EnumNums: en, BigBlobs: r.Chance(6)}, Features: map[string]bool{}, MaxDepth: 1 + r.Intn(3)}
 			bs := g.Message(0, 0)
@@ -85,6 +88,141 @@ func runDecode(cfg *Cfg) {
 			}
 			decodeCase(out, t, g, bs, into, merge, discard, malformed, modelOK)
 		}
+	}
+}
+
+// adjacencyPass: records of a repeated field followed DIRECTLY by a short length-delimited record of another field
+// of the same message (or of an unknown field with a small number), for every such pair and payload lengths 0, 1,
+// 2, 3 and (number of the repeated field) >> 4: what a decoder that stays in a loop "while the same key follows"
+// must tell apart from its own key (e.g. `0a 01` = field 1 with one byte vs. the first bytes of the key of field 17).
+func adjacencyPass(out *Out, t *Target, r *vschema.Rand, en []int32, modelOK bool) {
+	m := &t.S.Msgs[0]
+	type ld struct {
+		num  int
+		kind int // 0 string, 1 bytes, 2 message (empty payload only), 3 unknown
+	}
+	var lds []ld
+	for _, g := range m.Fields {
+		switch {
+		case g.Shape == vschema.Map:
+			lds = append(lds, ld{g.Num, 2})
+		case g.IsMsg:
+			lds = append(lds, ld{g.Num, 2})
+		case g.Kind == vschema.String:
+			lds = append(lds, ld{g.Num, 0})
+		case g.Kind == vschema.Bytes:
+			lds = append(lds, ld{g.Num, 1})
+		}
+	}
+	used := map[int]bool{}
+	for _, f := range m.Fields {
+		used[f.Num] = true
+	}
+	for _, n := range []int{1, 2, 15} {
+		if !used[n] {
+			lds = append(lds, ld{n, 3})
+		}
+	}
+	cases := 0
+	for j := range m.Fields {
+		f := &m.Fields[j]
+		if f.Shape != vschema.Repeated || !(f.IsMsg || f.Kind.IsBlob()) {
+			continue
+		}
+		for _, g := range lds {
+			if g.num == f.Num {
+				continue
+			}
+			lens := []int{0, 1, 2, 3, (f.Num >> 4) & 0x7f}
+			if g.kind == 2 {
+				lens = []int{0}
+			}
+			for _, l := range lens {
+				for _, fill := range []byte{'y', 0} {
+					if cases++; cases > 400 {
+						return
+					}
+					sg := &vval.StreamGen{R: r, S: t.S, G: &vval.GenOpts{EnumNums: en}, Features: map[string]bool{"adjacent-short-record": true}, MaxDepth: 1}
+					if g.kind == 3 {
+						sg.Features["unknown"] = true
+					}
+					var bs []byte
+					for k := 0; k < 1+r.Intn(2); k++ {
+						bs = sg.ElemRecord(bs, f, 1)
+					}
+					bs = protowire.AppendTag(bs, protowire.Number(g.num), protowire.BytesType)
+					bs = protowire.AppendBytes(bs, bytes.Repeat([]byte{fill}, l))
+					out.Count("adjacent_short_record_cases")
+					decodeCase(out, t, sg, bs, vval.Empty(t.S, 0), false, false, false, modelOK)
+					if l == 0 || g.kind == 2 {
+						break
+					}
+				}
+			}
+		}
+	}
+}
+
+// nilJunkMergePass: Merge-decoding INTO the hand-built nil states — a oneof wrapper holding a nil message, a nil map
+// value under a key, a nil list element — a stream that carries exactly that member / key / field with a NON-EMPTY
+// payload. The reference allocates and merges; silently dropping the bytes is a violation of C03 (and C09).
+func nilJunkMergePass(out *Out, t *Target, r *vschema.Rand, en []int32, modelOK bool) {
+	m := &t.S.Msgs[0]
+	for j := range m.Fields {
+		f := &m.Fields[j]
+		if !f.IsMsg || f.Extern != "" {
+			continue
+		}
+		into := vval.Empty(t.S, 0)
+		sg := &vval.StreamGen{R: r, S: t.S, G: &vval.GenOpts{EnumNums: en}, Features: map[string]bool{"merge-into-nonempty": true, "merge-into-nil-junk": true}, MaxDepth: 2}
+		var bs []byte
+		switch f.Shape {
+		case vschema.Oneof:
+			into.Kids[j] = vval.VOne(vval.VNone())
+		case vschema.Repeated:
+			into.Kids[j] = vval.VList(true, []*vval.Val{vval.VNone(), vval.Empty(t.S, f.Msg)})
+		case vschema.Singular:
+			// (a nil singular message is the ordinary unset state)
+		default:
+			continue
+		}
+		for try := 0; try < 6; try++ {
+			bs = sg.ElemRecord(nil, f, 1)
+			if len(bs) > protowire.SizeTag(protowire.Number(f.Num))+1 {
+				break
+			}
+		}
+		out.Count("merge_into_nil_junk_cases")
+		decodeCase(out, t, sg, bs, into, true, false, false, modelOK)
+	}
+}
+
+// bigBlobPass: elements larger than any block / pool size a decoder may use (32 KiB + 1, 70 000 bytes) after small
+// ones in the same repeated bytes / string field, in map values and oneof members; decodeCase overwrites the input
+// afterwards, so an element left as a view of it shows.
+var bigBlobTargets int
+
+func bigBlobPass(out *Out, t *Target, r *vschema.Rand, en []int32) {
+	m := &t.S.Msgs[0]
+	for j := range m.Fields {
+		f := &m.Fields[j]
+		if f.IsMsg || !f.Kind.IsBlob() || f.Shape == vschema.Map {
+			continue
+		}
+		if bigBlobTargets++; bigBlobTargets > 12 {
+			return
+		}
+		sg := &vval.StreamGen{R: r, S: t.S, G: &vval.GenOpts{EnumNums: en}, Features: map[string]bool{"big-blob": true}, MaxDepth: 1}
+		var bs []byte
+		for _, l := range []int{3, 32769, 0, 70000, 5, 32768} {
+			bs = protowire.AppendTag(bs, protowire.Number(f.Num), protowire.BytesType)
+			bs = protowire.AppendBytes(bs, bytes.Repeat([]byte{byte('a' + l%26)}, l))
+			if f.Shape != vschema.Repeated && l == 32769 {
+				break
+			}
+		}
+		out.Count("big_blob_cases")
+		decodeCase(out, t, sg, bs, vval.Empty(t.S, 0), false, false, false, false)
 	}
 }
 
